@@ -8,7 +8,7 @@ SHARDS = {'quick': 4, 'thorough': 16}
 RULE = (
     'Seeded G-series records (segment templates with a forced feature per case: begins/ends in rain or in a rise, '
     'chains of contending storms and rises, gaps, one-sample stretches, exact ties, extreme thresholds) are loaded '
-    'and classified by the real code (function, in-process CLI, bin/spowtd subprocess); thorough adds the two field '
+    'and classified by the real code (function, in-process CLI with verbosity 0-3, bin/spowtd subprocess); thorough adds the two field '
     'datasets x a threshold grid.  Monitors: exception/exit-status monitor, contract on match_storms, dataset walker '
     '(uniqueness of both pairing columns, storm/rise rows <-> pairs, overlap in epochs).  Non-trivial: dataset with '
     '>= 1 candidate storm-rise pair; distinct by (rain pattern, jump pattern, stretch lengths, thresholds, step).'
@@ -36,6 +36,8 @@ REQUIRED = {
         'one-sample-stretches': 3,
         'datasets-with-3+-stretches': 5,
         'runs-via-cli': 10,
+        'cli-runs-with-verbosity-2': 5,
+        'cli-runs-with-verbosity-3': 5,
         'runs-via-subprocess': 1,
         'contract-evaluations:spowtd.classify.match_storms': 100,
     }
